@@ -39,15 +39,6 @@ Definition res_eqb (m : pres content) (o : obs) : bool :=
   | _, _ => false
   end.
 
-(** parentheses balanced: never more ')' than '(' so far, none open at the end *)
-Fixpoint balanced (s : list byte) (open : Z) : bool :=
-  match s with
-  | [] => open =? 0
-  | x28 :: tl => balanced tl (open + 1)
-  | x29 :: tl => if open <=? 0 then false else balanced tl (open - 1)
-  | _ :: tl => balanced tl open
-  end.
-
 (** * declarative reading of the parameters *)
 Inductive reading := Invalid | Valid (P : option params) | Unreadable.
 
